@@ -114,6 +114,8 @@ pub fn gen_wcfg(rng: &mut Rng) -> WCfg {
             1 => 2,
             2 => 3,
             3 => 16,
+            // wider than the crate's default of 16 (a reader must not rely on its own setting)
+            4 => rng.range(17, 64),
             _ => rng.range(1, 20),
         },
         snappy: rng.chance(1, 3),
